@@ -36,7 +36,7 @@ def sym_array(c, shape, name):
     return arr([c.fresh_real(f"{name}{i}") for i in range(size)]).reshape(shape)
 
 
-def sym_affine(c, model, shape, cols, name, const=True):
+def sym_affine(c, model, shape, cols, name, const=True, nz=False):
     """An Affine over `model` with a fresh coefficient on every (element, column in cols) and a
     fresh constant per element; built directly from its fields, not through rsome operators."""
     size = int(np.prod(shape))
@@ -44,7 +44,10 @@ def sym_affine(c, model, shape, cols, name, const=True):
     data, rows, cs = [], [], []
     for i in range(size):
         for j in cols:
-            data.append(c.fresh_real(f"{name}_a{i}_{j}_"))
+            v = c.fresh_real(f"{name}_a{i}_{j}_")
+            if nz:
+                c.assume(v != 0)
+            data.append(v)
             rows.append(i)
             cs.append(j)
     d = arr(data)
